@@ -13,7 +13,11 @@ use crate::spec::{Op, RunEnd, Scenario, Spec, Stats, Tier};
 
 pub struct C18;
 
-pub fn gen_corpus_spec(rng: &mut Prng) -> Spec {
+pub fn gen_corpus_spec(rng: &mut Prng, tier: Tier) -> Spec {
+    if rng.chance(1, if tier == Tier::Quick { 1_200 } else { 8_000 }) {
+        // about 33 HC-128 marathons of 2^27 words per quick check, in every configuration
+        return marathon_spec(rng, "C18", "corpus_marathon", 128);
+    }
     if rng.chance(1, 100) {
         return seeding_sweep_spec(rng, "C18", "corpus_seeding_sweep");
     }
@@ -81,6 +85,14 @@ pub fn gen_extra_corpus(seed: u64, n: usize) -> Vec<Spec> {
 pub fn exec_corpus(spec: &Spec, st: &mut Stats) -> Vec<u64> {
     let mut per_op = Vec::new();
     let kind = spec.kind.expect("kind");
+    if spec.variant == "corpus_marathon" {
+        if run_marathon(spec, st).is_err() {
+            st.log.str("panic@marathon");
+            st.count("probe:panic_marker");
+        }
+        per_op.push(st.log.finish());
+        return per_op;
+    }
     if spec.variant == "corpus_seeding_sweep" {
         if let Err((i, _)) = run_seeding_sweep(spec, st) {
             st.log.str(&format!("panic@seeding {}", i));
@@ -220,7 +232,7 @@ impl Scenario for C18 {
         }
     }
     fn generate(&self, rng: &mut Prng, _tier: Tier) -> Spec {
-        gen_corpus_spec(rng)
+        gen_corpus_spec(rng, _tier)
     }
     fn execute(&self, spec: &Spec, st: &mut Stats) -> RunEnd {
         st.evals += 1;
